@@ -180,16 +180,23 @@ mod proofs {
         std::mem::forget(t);
     }
 
-    /// bytes lengths 0, 1, 2, 3 one after the other. (Longest loop: `bit_vec::reverse_bits`, 8.)
-    #[kani::proof]
-    #[kani::unwind(10)]
-    #[kani::stub(std::backtrace::Backtrace::capture, std::backtrace::Backtrace::disabled)]
-    fn bitvec_read_total() {
-        bitvec_read_case::<0>();
-        bitvec_read_case::<1>();
-        bitvec_read_case::<2>();
-        bitvec_read_case::<3>();
+    /// One harness per bytes length (all four lengths in one harness exhaust 12 GB in the solver).
+    /// Longest loop: `bit_vec::reverse_bits`, 8 iterations.
+    macro_rules! bitvec_read_total {
+        ($name:ident, $len:expr) => {
+            #[kani::proof]
+            #[kani::unwind(10)]
+            #[kani::stub(std::backtrace::Backtrace::capture, std::backtrace::Backtrace::disabled)]
+            fn $name() {
+                bitvec_read_case::<$len>();
+            }
+        };
     }
+    bitvec_read_total!(bitvec_read_total_len0, 0);
+    bitvec_read_total!(bitvec_read_total_len1, 1);
+    bitvec_read_total!(bitvec_read_total_len2, 2);
+    // 5 bytes = 40 bits: crosses the u32 storage block boundary of bit-vec
+    bitvec_read_total!(bitvec_read_total_len5, 5);
 
     // ------------------------------------------------------------------ round trips (C09)
 
